@@ -675,6 +675,11 @@ func init() {
 		c.fr.ex.Assumed["key algebra: hexutil.EncodeUint64 is injective (constructor)"] = true
 		return WithGo(r, types.Typ[types.String]), true
 	}
+	libModels["strconv.FormatUint"] = func(c *libCall) (Val, bool) {
+		r := App(SBytes, "fmtu64", c.arg(0), c.arg(1))
+		c.fr.ex.Assumed["key algebra: strconv.FormatUint is injective in (value, base) (constructor)"] = true
+		return WithGo(r, types.Typ[types.String]), true
+	}
 	libModels["github.com/ethereum/go-ethereum/common/hexutil.Encode"] = func(c *libCall) (Val, bool) {
 		r := App(SBytes, "hexenc", c.arg(0))
 		c.fr.ex.Assumed["key algebra: hexutil.Encode is injective (constructor)"] = true
